@@ -10,6 +10,7 @@ import (
 	"encoding/json"
 	"fmt"
 	"io"
+	"io/fs"
 	"os"
 	"os/exec"
 	"path/filepath"
@@ -361,10 +362,13 @@ func errMsgs(err error) []any {
 // Compile runs the real compiler on an in-memory file set. Outcome: {"g": canonical graph} |
 // {"err": [messages]} | {"panic": text}.
 func Compile(files map[string]string, entry string) (out map[string]any) {
-	mfs := fstest.MapFS{}
+	m := fstest.MapFS{}
 	for n, t := range files {
-		mfs[n] = &fstest.MapFile{Data: []byte(t)}
+		m[n] = &fstest.MapFile{Data: []byte(t)}
 	}
+	// an import recursion that does not terminate would overflow the Go stack (not recoverable): stop it with an
+	// ordinary panic after far more opens than any generated file set needs
+	mfs := &countingFS{FS: m, left: 20000}
 	defer func() {
 		if r := recover(); r != nil {
 			out = map[string]any{"panic": fmt.Sprint(r)}
@@ -375,6 +379,19 @@ func Compile(files map[string]string, entry string) (out map[string]any) {
 		return map[string]any{"err": errMsgs(err)}
 	}
 	return map[string]any{"g": Canon(g, "root")}
+}
+
+type countingFS struct {
+	fs.FS
+	left int
+}
+
+func (c *countingFS) Open(name string) (fs.File, error) {
+	c.left--
+	if c.left < 0 {
+		panic("import recursion does not terminate (more than 20000 file opens)")
+	}
+	return c.FS.Open(name)
 }
 
 // ---------------------------------------------------------------------------------------------------
